@@ -50,6 +50,11 @@ Tail0(name, h) ==
     [] name = "prop_part0"    -> NH \o <<ElProp(0, A, -1), ElPart(A, 0)>>
     [] name = "block"         -> NH \o <<ElProp(0, A, -1)>> \o PartsAll(A)
     [] name = "block_pv2"     -> NH \o <<ElProp(0, A, -1)>> \o PartsAll(A) \o VotesBy(Prevote, 0, V2, A)
+    \* +2/3 any prevotes without a polka (the fourth validator prevotes nil), prevote timeout: Precommit step with 2 prevotes for A
+    [] name = "block_pv2_wait" -> NH \o <<ElProp(0, A, -1)>> \o PartsAll(A) \o VotesBy(Prevote, 0, V2, A)
+                                     \o <<ElVote(Prevote, 0, ValSeq[4], Nil), ElTo("PrevoteWait", 0)>>
+    \* votes of the NEXT round held while still in round 0 (HeightVoteSet keeps round+1)
+    [] name = "ahead_pv1"     -> NH \o VotesBy(Prevote, 1, V2, B)
     [] name = "block_polka"   -> NH \o <<ElProp(0, A, -1)>> \o PartsAll(A) \o VotesBy(Prevote, 0, V3, A)
     [] name = "block_polka_pc2" -> NH \o <<ElProp(0, A, -1)>> \o PartsAll(A) \o VotesBy(Prevote, 0, V3, A) \o VotesBy(Precommit, 0, V2, A)
     [] name = "prop_polka"    -> NH \o <<ElProp(0, A, -1)>> \o VotesBy(Prevote, 0, V3, A)
@@ -88,11 +93,11 @@ Tail0(name, h) ==
 \*   "N0a" round 0: nil votes; round 1: B proposed, votes for B
 \*   "N0b" rounds 0 and 1: nil votes; round 2
 WorldsOf(tail) ==
-     (IF tail \in {"newheight", "propose", "prop", "prop_part0", "block", "block_pv2", "block_polka", "block_polka_pc2", "prop_polka",
+     (IF tail \in {"newheight", "propose", "prop", "prop_part0", "block", "block_pv2", "block_pv2_wait", "block_polka", "block_polka_pc2", "prop_polka",
                    "polka_noprop", "commit_noblock", "commit_part0", "decided", "decided_strag", "decided_eq", "eq_nil"} THEN {"A0"} ELSE {})
-\cup (IF tail \in {"newheight", "propose", "prop", "prop_part0", "block", "block_pv2", "block_polka", "prop_polka", "polka_noprop",
+\cup (IF tail \in {"newheight", "propose", "prop", "prop_part0", "block", "block_pv2", "block_pv2_wait", "block_polka", "prop_polka", "polka_noprop",
                    "r1v", "r1v_reprop", "r1v_reprop_block", "r1_reprop_nopol"} THEN {"P0"} ELSE {})
-\cup (IF tail \in {"newheight", "propose", "nilpolka", "nilpolka_pcnil", "r1", "r1_prop", "r1_block_pv2", "r1_commit_noblock"} THEN {"N0a"} ELSE {})
+\cup (IF tail \in {"newheight", "propose", "nilpolka", "nilpolka_pcnil", "r1", "r1_prop", "r1_block_pv2", "r1_commit_noblock", "ahead_pv1"} THEN {"N0a"} ELSE {})
 \cup (IF tail \in {"newheight", "propose", "nilpolka", "nilpolka_pcnil", "r1", "r2", "r2_pv2"} THEN {"N0b"} ELSE {})
 Compatible(ne, pe) ==
   IF ne.hs = pe.hs THEN WorldsOf(ne.tail) \cap WorldsOf(pe.tail) # {}
